@@ -64,6 +64,10 @@ func (s *switchFS) Open(name string) (fs.File, error) {
 
 var c09Controlled bool
 
+// c09Final: set by a driver whose threads leave state behind that must have settled when they are
+// done: run once after every schedule, uncontrolled; its result must be the solo result "FINAL".
+var c09Final func() (string, error)
+
 type c09Call struct {
 	name string
 	run  func() (string, error)
@@ -198,6 +202,35 @@ func c09Build(driver string, threads int) [][]c09Call {
 			} else {
 				out[i] = []c09Call{mk("incl-edited", func(b *bytes.Buffer) error { return t.Load("h6_page.vuego").Fill(tdata(i)).Render(bg, b) })}
 			}
+		}
+	case "H22-cold-cache-edited-underneath":
+		// like H6, but the engine has not seen the page: the first render loads it while the editor
+		// replaces it. Whatever that render returns - once everybody is done, the engine serves the
+		// new version (FINAL)
+		old := files.FS()
+		newer := files.FS()
+		later := baseTime.Add(time.Hour)
+		newer["h6_page.vuego"] = &fstest.MapFile{Data: []byte(c09EditedPage), ModTime: later}
+		newer["c_card.vuego"] = &fstest.MapFile{Data: []byte(c09EditedComp), ModTime: later}
+		sw := &switchFS{sets: [2]fstest.MapFS{old, newer}}
+		t := vuego.NewFS(sw)
+		v := vuego.NewVue(sw)
+		for i := range out {
+			i := i
+			if i == len(out)-1 {
+				out[i] = []c09Call{{name: "EDIT", run: func() (string, error) { sw.flip(); return "", nil }}}
+			} else {
+				out[i] = []c09Call{mk("incl-edited", func(b *bytes.Buffer) error { return t.Load("h6_page.vuego").Fill(tdata(i)).Render(bg, b) }),
+					mk("vue-edited", func(b *bytes.Buffer) error { return v.Render(b, "h6_page.vuego", tdata(i)) })}
+			}
+		}
+		c09Final = func() (string, error) {
+			var b1, b2 bytes.Buffer
+			err := t.Load("h6_page.vuego").Fill(tdata(0)).Render(bg, &b1)
+			if err == nil {
+				err = v.Render(&b2, "h6_page.vuego", tdata(0))
+			}
+			return b1.String() + "\x01" + b2.String(), err
 		}
 	case "H7-renderstring-on-new":
 		t := vuego.NewFS(files.FS()).Fill(c09Data())
@@ -397,7 +430,7 @@ func c09WalkH2(nodes []*html.Node, f func(*html.Node)) {
 	}
 }
 
-var c09Drivers = []string{"H1-cold-cache-same-file", "H2-shared-caller-map", "H3-v-once-warm", "H4-unseen-paths-and-expressions", "H4b-path-cache-at-limit", "H5-include-slots-layout-filters", "H6-files-edited-underneath", "H7-renderstring-on-new", "H8-funcs-and-errors", "H9-components-with-v-once-and-wrappers", "H10-same-page-different-data", "H11-front-matter-page-with-template-variables-vue", "H12-front-matter-page-with-template-variables-load", "H13-attribute-slices-with-spare-capacity-vue", "H14-attribute-slices-with-spare-capacity-load", "H15-layout-page-with-v-once-and-shorthand", "H16-layout-page-warm", "H17-shared-defaults-plus-assign", "H18-less-processor", "H19-processor-with-per-render-state", "H20-shared-read-only-data-of-other-map-types", "H21-unseen-expressions-with-variables-named-like-library-functions"}
+var c09Drivers = []string{"H1-cold-cache-same-file", "H2-shared-caller-map", "H3-v-once-warm", "H4-unseen-paths-and-expressions", "H4b-path-cache-at-limit", "H5-include-slots-layout-filters", "H6-files-edited-underneath", "H7-renderstring-on-new", "H8-funcs-and-errors", "H9-components-with-v-once-and-wrappers", "H10-same-page-different-data", "H11-front-matter-page-with-template-variables-vue", "H12-front-matter-page-with-template-variables-load", "H13-attribute-slices-with-spare-capacity-vue", "H14-attribute-slices-with-spare-capacity-load", "H15-layout-page-with-v-once-and-shorthand", "H16-layout-page-warm", "H17-shared-defaults-plus-assign", "H18-less-processor", "H19-processor-with-per-render-state", "H20-shared-read-only-data-of-other-map-types", "H21-unseen-expressions-with-variables-named-like-library-functions", "H22-cold-cache-edited-underneath"}
 
 // c09Reset puts every piece of process-global state the engine has into its initial state.
 func c09Reset(driver string) {
@@ -422,7 +455,7 @@ func c09Solo(driver string, threads int) map[string]map[string]bool {
 		}
 		acc[name][r] = true
 	}
-	if driver == "H6-files-edited-underneath" {
+	if driver == "H6-files-edited-underneath" || driver == "H22-cold-cache-edited-underneath" {
 		later := baseTime.Add(time.Hour)
 		for _, pageNew := range []bool{false, true} {
 			for _, compNew := range []bool{false, true} {
@@ -438,6 +471,12 @@ func c09Solo(driver string, threads int) map[string]map[string]bool {
 					var buf bytes.Buffer
 					err := vuego.NewFS(fsys).Load("h6_page.vuego").Fill(tdata(ti)).Render(bg, &buf)
 					add(fmt.Sprintf("incl-edited@t%d", ti), res(buf.String(), err))
+					var vbuf bytes.Buffer
+					verr := vuego.NewVue(fsys).Render(&vbuf, "h6_page.vuego", tdata(ti))
+					add(fmt.Sprintf("vue-edited@t%d", ti), res(vbuf.String(), verr))
+					if pageNew && compNew && ti == 0 {
+						add("FINAL", res(buf.String()+"\x01"+vbuf.String(), err))
+					}
 				}
 			}
 		}
@@ -530,6 +569,7 @@ func (c *c09Case) Run(ctx *core.Ctx) {
 	mk := func() []func() {
 		c09Controlled = false
 		c09Reset(c.Driver)
+		c09Final = nil
 		calls := c09Build(c.Driver, c.Threads)
 		c09Controlled = true
 		ths := make([]func(), c.Threads)
@@ -577,6 +617,12 @@ func (c *c09Case) Run(ctx *core.Ctx) {
 				if !solo[name][val] {
 					rep("cross-talk", c.Driver, name, fmt.Sprintf("schedule %v: call %s on thread %d returned a result it never returns alone\n got: %q\nsolo: %q", choices, name, ti, clip(val, 500), clip(strings.Join(keysOf(solo[name]), " || "), 500)))
 				}
+			}
+		}
+		if c09Final != nil {
+			out, ferr := c09Final()
+			if val := res(out, ferr); !solo["FINAL"][val] {
+				rep("stale-after-threads-finished", c.Driver, "FINAL", fmt.Sprintf("schedule %v: when every thread was done the engine rendered\n got: %q\nwant: %q", choices, clip(val, 500), clip(strings.Join(keysOf(solo["FINAL"]), " || "), 500)))
 			}
 		}
 		var outs []string
@@ -752,7 +798,7 @@ func init() {
 		WorkerEnv: func(runDir string) []string {
 			return []string{"GORACE=log_path=" + runDir + "/race halt_on_error=0 exitcode=0 history_size=2", "VERIF_RACE_LOG=" + runDir + "/race"}
 		},
-		Rule: fmt.Sprint(len(c09Drivers)) + " drivers (among them: cold cache on the same file; shared caller map through Vue.Render and Load().Fill; v-once with a warm cache; previously unseen paths and expressions, also with the global path cache two entries below its limit; include+slots+layout+filters+shorthand; page and component edited underneath by an editor thread; RenderString on New(); registered functions and failing renders; components with v-once and wrapper components; one page with different data per thread; a front-matter page that sets per-request variables with top-level <template :var> through Vue.Render and through Load().Fill().Render; inline LESS styles on an engine with files and on an engine for string templates, whose LESS processor has no file system), each with 2 (thorough: also 3) real goroutines on one shared engine. " +
+		Rule: fmt.Sprint(len(c09Drivers)) + " drivers (among them: cold cache on the same file; shared caller map through Vue.Render and Load().Fill; v-once with a warm cache; previously unseen paths and expressions, also with the global path cache two entries below its limit; include+slots+layout+filters+shorthand; page and component edited underneath by an editor thread, with a warm cache and with a cold one (where the engine must serve the new version once every thread is done); RenderString on New(); registered functions and failing renders; components with v-once and wrapper components; one page with different data per thread; a front-matter page that sets per-request variables with top-level <template :var> through Vue.Render and through Load().Fill().Render; inline LESS styles on an engine with files and on an engine for string templates, whose LESS processor has no file system), each with 2 (thorough: also 3) real goroutines on one shared engine. " +
 			"Every schedule with at most b preemptions is executed under a controlled scheduler that owns every Lock/RLock/Unlock/Pool/Once operation of the vuego module (and file-system opens in the edit driver); per schedule: every call's bytes and error equal one of its solo results, runtime.RaceErrors() did not increase (race detector in the loop, hand-offs invisible to it), no deadlock, no panic. One recorded schedule per driver is replayed and must reproduce exactly. A free-running -race pass of the same bodies complements it. states = schedules executed, transitions = scheduling points; non-trivial = all",
 		Bounds:      map[string]string{"quick": "2 threads, preemption bound 2", "thorough": "2 threads bound 3; 3 threads bound 2"},
 		Assumptions: []string{"sequentially consistent interleavings at synchronisation operations; unsynchronised accesses are caught by the race detector on each explored schedule instead", "cmd/vinstr rewrites every use of package sync in the vuego module (5 files today); other blocking primitives (channels, atomics) are not used by the module"},
